@@ -25,6 +25,12 @@ def safe_run(mod, case):
 
 
 def safe_oracle(mod, case, obs):
+    if isinstance(obs, dict) and 'raised' in obs and getattr(mod, 'RAISED_IS_FAILURE', False):
+        # the pipeline let an exception escape to the code that pushes items into it: no output-based judgement
+        # is possible and none of the modelled behaviours does that
+        return {'sig': 'raised-to-caller:%s' % obs['raised'],
+                'what': 'an exception escaped to the caller: %s: %s (%s)' % (
+                    obs['raised'], obs.get('msg', ''), ' | '.join(obs.get('tb', [])[-2:])[:200])}
     try:
         return mod.oracle(case, obs)
     except Exception as e:   # an oracle that cannot judge an observation must not pass silently
